@@ -18,6 +18,22 @@ def loops(k, header, kw):
             f"  forall|j: int| 0 <= j < {i} ==> #[trigger] arg_types@[j] == expr_ty(args_tast@[j]),\n decreases args.len() - {i},")
 
 
+START = (r"let call_site_func_ty = tast::Ty::TFunc \{\s*params: arg_types,(?=\s*ret_ty: Box::new\(ret_ty\.clone\(\)\),\s*\};\s*self\.push_constraint\(Constraint::TypeEqual\(\s*inst_ty\.clone\(\))")
+EXPR_START = (r"let call_site_func_ty = tast::Ty::TFunc \{\s*params: arg_types,(?=\s*ret_ty: Box::new\(ret_ty\.clone\(\)\),\s*\};\s*let func_tast = self\.infer_expr\()")
+
+
+def named_tail(n, pat):
+    return Fn(file=C, name="infer_call_expr", container="Typer", as_method_of="Typer", rename=f"call_named_tail_{n}", ret="r",
+              cut_from=re.compile(pat, re.S), cut_before="@block-end", cut_tail="",
+              sig=f"pub fn call_named_tail_{n}(&mut self, call_expr_id: ExprId, func: ExprId, args: &Vec<ExprId>, name: &String, inst_ty: Ty, arg_types: Vec<Ty>, args_tast: Vec<Expr>, "
+                  "ret_ty: Ty, astptr: Option<MySyntaxNodePtr>) -> Expr",
+              pre_rewrites=[(re.compile(r"self\.results\.record_"), "self.record_", "*"), ("args.to_vec()", "exprids_to_vec(args)", "*")],
+              rewrites=[VC],
+              obligation="a call by name: the callee's instantiated type is equated with (types of the elaborated arguments) -> (the call's type); the call carries these "
+                         "arguments, that callee type and that result type",
+              contract="ensures named_tail_ok(r, inst_ty, arg_types@, args_tast@, ret_ty, final(self).constraints()),")
+
+
 UNIT = Unit(
     name="U-LOCALCALL",
     properties=["C03"],
@@ -25,7 +41,8 @@ UNIT = Unit(
     describe="Typer::infer_call_expr, callee is a local variable (a parameter, a let-bound closure ..) (fragment): every argument is elaborated once, in order; the callee's own type "
              "— as the local environment records it — is equated with `(types of the elaborated arguments) -> t`, and t is the type the call is given; so a call through a function "
              "value agrees with that value's type in arity, in every argument and in the result",
-    trusted=["FRAGMENT call_local: the arm `ENameRef { res: NameRef::Local(name), .. }` of Typer::infer_call_expr; the other callee forms are dropped",
+    trusted=["FRAGMENT call_local: the arm `ENameRef { res: NameRef::Local(name), .. }` of Typer::infer_call_expr; the other callee forms are dropped; FRAGMENTS call_named_tail_1 / _2: the statements from `let call_site_func_ty = ..` to the end of the block, at both "
+             "places a call by name is typed (resolved name / single-segment unresolved path); what precedes them — lookup of the function, elaboration of the arguments, the result type (U-ARRSET) — is dropped",
              "Typer::infer_expr is a stub (inferred: SOME elaboration of the argument); the typer's constraint list is ghost state of the opaque Typer (push_constraint appends; "
              "fresh_ty_var, error_expr and the three record_* leave it alone); LocalTypeEnv::lookup_var, HirTable::local_ident_name, push_ice are stubs without contract",
              "that the solver rejects an unsatisfiable equation is the unifier's job (not under contract)"],
@@ -55,5 +72,16 @@ UNIT = Unit(
            obligation="the callee's type is equated with (argument types) -> (the call's type); arguments elaborated once, in order",
            contract="ensures local_call_ok(args@, r, final(self).constraints()),",
            loop_fn=loops),
+        named_tail(1, START + r"(?=.*" + START + ")"),
+        named_tail(2, START + r"(?!.*" + START + ")"),
+        Fn(file=C, name="infer_call_expr", container="Typer", as_method_of="Typer", rename="call_expr_tail", ret="r",
+           cut_from=re.compile(EXPR_START, re.S), cut_before="@block-end", cut_tail="",
+           sig="pub fn call_expr_tail(&mut self, genv: &PackageTypeEnv, local_env: &mut LocalTypeEnv, diagnostics: &mut Diagnostics, call_expr_id: ExprId, func: ExprId, args: &Vec<ExprId>, "
+               "arg_types: Vec<Ty>, args_tast: Vec<Expr>, ret_ty: Ty) -> Expr",
+           pre_rewrites=[(re.compile(r"self\.results\.record_"), "self.record_", "*"), ("args.to_vec()", "exprids_to_vec(args)", "*")],
+           rewrites=[VC],
+           obligation="a call whose callee is an arbitrary expression: the type of the elaborated callee is equated with (types of the elaborated arguments) -> (the call's type)",
+           contract="ensures r matches Expr::ECall { func: f, args: a, ty } && a@ == args_tast@ && ty == ret_ty && inferred(func, *f) "
+                    "&& named_tail_ok(r, expr_ty(*f), arg_types@, args_tast@, ret_ty, final(self).constraints()),"),
     ],
 )
